@@ -130,6 +130,7 @@ def run(ctx):
         cases = [v["case"] for v in rp.get("violations", []) if "case" in v]
     else:
         cases = ctx.run_json([binp, "tokens"])
+        json.dump(cases, open(os.path.join(vlib.BUILD, "last_cases_C30.json"), "w"))
     jobs, offs = [], []
     CH = 250
     for off in range(0, len(cases), CH):
